@@ -26,6 +26,8 @@ ConfsC == {Chain3, Cycle3}
 ConfsE == {BothEnd(2), BothEnd(3)}
 ConfsI == {Indep2, Indep3, IndepEnd(2)}
 ConfsOne == {OneWay}
+\* the one-way link declares a latency distribution
+ConfsOv == {[ep |-> <<1, 2>>, np |-> 2, links |-> {<<1, 2>>}, endT |-> Inf, ovl |-> {<<1, 2>>}]}
 OneEnd(t) == C(<<1, 2>>, 2, {<<1, 2>>}, t)
 \* quick tier: everything that shares one set of bounds, in one TLC run
 ConfsQ == {OneWay, BothWays, OneEnd(2), Indep2, Indep3, IndepEnd(2)}
